@@ -3,7 +3,7 @@ import vlib, simgen, oracles
 from props import opseq, simprops, bsprops
 
 HARNESS = ("atomh", "simh")
-TRUSTED = ["Broadcast.v models QueryBroadcaster::broadcast / BroadcasterInner::futures / BroadcastFuture::{new,poll,drop} / the lazily consumed reply iterator over an ABSTRACT task set (scheduled list, iterator being consumed, notification countdown) and wake sink (one registered waker consumed by a notification), driven sequentially: completions, failures and spurious wake-ups arrive between polls and - through scripts - inside the polls of other sub-futures; it is tied to the code by running the verbatim broadcaster.rs with the real util/task_set.rs and diatomic-waker on the same scripted scenarios (harness/atomh bscen.rs); the lock-free implementation of TaskSet is modelled separately (TaskSetConc.v: every shared access of wake_by_ref / take_scheduled / the iterator and its drop as one step, sequentially consistent interleavings) with its own invariant proof ('no completed wake-up is lost', 'the iterator never meets SLEEPING') and tied to the verbatim task_set.rs by step-by-step replay of explored traces (tools/tsetreplay.py); the two models are not composed formally (Broadcast.v assumes the abstract task set), and the countdown/notification law of the concurrent task set is not proved",
+TRUSTED = ["Broadcast.v models QueryBroadcaster::broadcast / BroadcasterInner::futures / BroadcastFuture::{new,poll,drop} / the lazily consumed reply iterator over an ABSTRACT task set (scheduled list, iterator being consumed, notification countdown) and wake sink (one registered waker consumed by a notification), driven sequentially: completions, failures and spurious wake-ups arrive between polls and - through scripts - inside the polls of other sub-futures; it is tied to the code by running the verbatim broadcaster.rs with the real util/task_set.rs and diatomic-waker on the same scripted scenarios (harness/atomh bscen.rs); the lock-free implementation of TaskSet is modelled separately (TaskSetConc.v: every shared access of wake_by_ref / take_scheduled / the iterator and its drop as one step, sequentially consistent interleavings) with its own invariant proof ('no completed wake-up is lost', 'the iterator never meets SLEEPING') and tied to the verbatim task_set.rs by step-by-step replay of explored traces (tools/tsetreplay.py); the two models are not composed formally (Broadcast.v assumes the abstract task set), the countdown law of the concurrent task set is proved step-wise (c14_taskset_countdown, c14_taskset_armed_push_notifies)",
            "multishot / diatomic_waker trusted",
            "connect() on one clone concurrently with send() on another is covered by the CachedRw theorems (sequential interleaving of whole operations) and by op sequences on the verbatim cached_rw_lock.rs; the bench DSL connects all ports before the simulation starts"]
 ASSUMPTIONS = []
